@@ -129,15 +129,24 @@ def judge(evs, violations, stats, reps=None):
             stats['collapse_diff_known'] += 1
 
 def explain_diff(ev, p):
-    """a peptide that appears in only one of two runs and is not obliged: is it one of the
-    order-dependent products of a known finding?"""
+    """a peptide that appears in only one of two runs of the same input and is not obliged: is it one of
+    the order / knob dependent products of a known finding?"""
     from harness.lib import cvsig as SG
+    exc_on = ev.run['exc'] != 'None'
     for tx_id, x in ev.xs.items():
         recs = ev.recs[tx_id]
         ws = SG.decode_wits(O.call('cv_may_witnesses', [x, p]), recs)
         ce = CK._cds_end(ev.case, tx_id)
         if ws and any(SG.stoploss_witness(w, ce) for w in ws):
             return CK.F_STOPLOSS
+        if ws and not CK.run_flags(ev.run) and SG.explained_by_softsite_missing(x, ws, recs):
+            return CK.F_PEPSIN
+        if not ws:
+            # not a product at all under the exact semantics: produced by a relaxed reading of the sites?
+            if exc_on and O.call('cv_realizable_relaxed', [x, [p]])[0]:
+                return CK.F_D14
+            if not CK.run_flags(ev.run) and O.call('cv_realizable_relaxed2', [x, [p]])[0]:
+                return CK.F_PEPSIN
     return None
 
 def run(ctx):
